@@ -114,6 +114,8 @@ func awkwardAny() []namedValue {
 		nv("error", errCat), nv("(*ptrOp)(nil)", (*ptrOp)(nil)), nv("uintptr(0)", uintptr(0)), nv("unsafe.Pointer(nil)", unsafe.Pointer(nil)), nv("complex", complex(1, 2)),
 		nv("int8(-1)", int8(-1)), nv("uint64 max", uint64(math.MaxUint64)), nv(`"\x00"`, "\x00"), nv(`""`, ""), nv("Auxiliary(nil)", stackage.Auxiliary(nil)),
 		nv("Stack", stackage.And().Push("in", nil)), nv("Condition", stackage.Cond("k", stackage.Lt, 3)), nv("StackAlias", StackAlias(stackage.List().Push("al"))), nv("*CondAlias", func() any { c := CondAlias(stackage.Cond("a", stackage.Eq, "b")); return &c }()),
+		nv(`Cond("",Ne,"v")`, stackage.Cond("", stackage.Ne, "v")), nv("Init+SetOperator", func() any { var c stackage.Condition; c.Init(); c.SetOperator(stackage.Ge); return c }()),
+		nv("&freed Stack", &freedS), nv("&freed Condition", &freedC), nv("&StackAlias{}", &StackAlias{}), nv("&Condition{}", &stackage.Condition{}),
 		nv("Stringer", strer{"str"}), nv("zero Stringer", strer{}), nv("[]string{}", []string{}), nv("LogLevel(0)", stackage.LogLevel(0)),
 	}
 	return out
